@@ -405,7 +405,7 @@ class Header(SimpleNamespace):
 
 class FieldStorage:
 
-    _patt = re.compile('(.+?)(=(.+?))?(;|$)')
+    _patt = re.compile('(.+?)(=(".*?"|.+?))?(;|$)')
 
     name: str
     value: Optional[str]
